@@ -20,8 +20,12 @@ def parse_record(text):
     return {k: _val(v) for k, v in _REC.findall(text)}
 
 
-def behaviours(module, cfg, workdir, num, depth, seed, var="in"):
-    """Run `tlc -simulate` and return a list of behaviours; each is the list of values of record variable `var` per state."""
+_FUN = re.compile(r"(\d+)\s*:>\s*(TRUE|FALSE|-?\d+|\"[^\"]*\")")
+
+
+def behaviours(module, cfg, workdir, num, depth, seed, var="in", kind="record"):
+    """Run `tlc -simulate` and return a list of behaviours; each is the list of values of variable `var` per state.
+    kind: "record" ([a |-> 1, ...] -> dict), "func" ((0 :> x @@ 1 :> y) -> list indexed by the integer domain), "scalar"."""
     os.makedirs(workdir, exist_ok=True)
     prefix = os.path.join(workdir, "sim")
     for f in glob.glob(prefix + "*"):
@@ -33,9 +37,19 @@ def behaviours(module, cfg, workdir, num, depth, seed, var="in"):
         states = re.split(r"\nSTATE_\d+ ==", "\n" + txt)[1:]
         beh = []
         for st in states:
-            m = re.search(r"/\\ %s = (\[[^\]]*\])" % re.escape(var), st, re.S)
-            if m:
-                beh.append(parse_record(m.group(1)))
+            if kind == "record":
+                m = re.search(r"/\\ %s = (\[[^\]]*\])" % re.escape(var), st, re.S)
+                if m:
+                    beh.append(parse_record(m.group(1)))
+            elif kind == "func":
+                m = re.search(r"/\\ %s = \(([^\)]*)\)" % re.escape(var), st, re.S)
+                if m:
+                    d = {int(k): _val(v) for k, v in _FUN.findall(m.group(1))}
+                    beh.append([d[i] for i in sorted(d)])
+            else:
+                m = re.search(r"/\\ %s = (TRUE|FALSE|-?\d+|\"[^\"]*\")" % re.escape(var), st)
+                if m:
+                    beh.append(_val(m.group(1)))
         if beh:
             res.append(beh)
         os.remove(f)
